@@ -5604,6 +5604,47 @@ SBEPP_DEPRECATED constexpr auto
 
 namespace detail
 {
+// Cursor used by `size_bytes_checked()`. Unlike `sbepp::cursor`, it reads
+// `<data>` length (to move past the data) only when it's located before
+// `limit`, otherwise it stays in place and the visitor reports an error.
+template<typename Byte>
+class size_bytes_checked_cursor : public cursor<Byte>
+{
+public:
+    SBEPP_CPP14_CONSTEXPR
+        size_bytes_checked_cursor(Byte* ptr, Byte* limit) noexcept
+        : limit{limit}
+    {
+        this->pointer() = ptr;
+    }
+
+    template<typename ResView, typename View>
+    SBEPP_CPP20_CONSTEXPR ResView get_first_data_view(const View view) noexcept
+    {
+        this->pointer() = view(detail::get_level_tag{})
+                          + view(detail::get_block_length_tag{});
+        return get_data_view<ResView>(view, nullptr);
+    }
+
+    template<typename ResView, typename View, typename Getter>
+    SBEPP_CPP20_CONSTEXPR ResView
+        get_data_view(const View view, Getter&& /*getter*/) noexcept
+    {
+        ResView res{this->pointer(), view(detail::end_ptr_tag{})};
+        if((this->pointer() <= limit)
+           && (static_cast<std::size_t>(limit - this->pointer())
+               >= sizeof(typename ResView::size_type)))
+        {
+            this->pointer() += sizeof(typename ResView::size_type);
+            this->pointer() += res.size();
+        }
+        return res;
+    }
+
+private:
+    Byte* limit{};
+};
+
 class size_bytes_checked_visitor
 {
 public:
@@ -5669,7 +5710,14 @@ public:
     template<typename T, typename Tag>
     SBEPP_CPP14_CONSTEXPR bool on_data(T d, Tag) noexcept
     {
-        return !validate_and_subtract(sbepp::size_bytes(d));
+        // `length` has to be validated before it's accessed. Also, it's not
+        // added to the `length` size because the sum can overflow.
+        if(!validate_and_subtract(sizeof(typename T::size_type)))
+        {
+            return true;
+        }
+
+        return !validate_and_subtract(d.size());
     }
 
     // ignore them all because we validate `blockLength`
@@ -5754,7 +5802,8 @@ SBEPP_CPP20_CONSTEXPR size_bytes_checked_result
     }
 
     detail::size_bytes_checked_visitor visitor{size};
-    auto c = sbepp::init_cursor(view);
+    detail::size_bytes_checked_cursor<byte_type_t<View>> c{
+        sbepp::init_cursor(view).pointer(), sbepp::addressof(view) + size};
     sbepp::visit(view, c, visitor);
     if(visitor.is_valid())
     {
